@@ -1,8 +1,17 @@
 #!/bin/bash
 # Offline build of the Lean library (models, lemmas, property theorems) and all driver executables.
 set -e
-cd "$(dirname "$0")/lean"
+cd "$(dirname "$0")"
 export PATH="/usr/local/bin:$PATH"
+# Translators first: lean/GlueVerif/Generated/*.lean is git-ignored and regenerated from the glue
+# tree under test ($GLUE_REPO, default /repo); Props that import a Generated module need it to exist.
+export MPLBACKEND=Agg PYTHONDONTWRITEBYTECODE=1
+for t in harness/translate/*.py; do
+  m=$(basename "$t" .py)
+  [ "$m" = "__init__" ] && continue
+  "${VERIF_PYTHON:-/venv/bin/python}" -m "harness.translate.$m"
+done
+cd lean
 MODS=$(ls GlueVerif/Props/*.lean | sed 's#/#.#g; s#\.lean$##')
 DRVS=$(ls Drivers/*.lean | sed 's#Drivers/\(C[0-9]*\)\.lean#drv_\L\1#')
 lake build GlueVerif $MODS $DRVS
